@@ -17,12 +17,23 @@
 (* Obligation towards Layer A (C05): every evaluation of a history yields    *)
 (* the rows of the denotation.  With the descent that follows every matching *)
 (* branch it is a theorem of the bounded model; with the code's descent      *)
-(* (PreferWildcardB3) TLC produces the programs of finding F2.               *)
+(* (PreferWildcardB3) TLC produces the programs of finding F2.  On trees of  *)
+(* distinct leaves over overlapping variable sets of three variables (G3w,   *)
+(* G3ws) the obligation needs three more things, each a named switch that    *)
+(* TLC violates when set to the code before the repair: matching entries     *)
+(* that repeat a more general one are not replayed (ReplayLeavesOutRepeats), *)
+(* ElseIf stores a right-branch result before the duplicate test             *)
+(* (ElseIfStoresDuplicates), and a binary operator requires its left         *)
+(* operand's variables of its right operand's results (RightKeepsLeftVars,   *)
+(* in EQLMech2).                                                             *)
 (* Stage B4 (same module): the mechanism of for_all - the condition is          *)
 (* evaluated once per universal value, its true results are completed over the *)
 (* condition's still unbound variables, projected onto the non-universal       *)
 (* variables, de-duplicated and intersected over the universal values, with an *)
 (* early exit; what the quantifier requires of its condition is a named switch.*)
+(* Universals that are the solutions of a sub-query leave results in the       *)
+(* sub-query's caches; what an early exit does about them is the switch        *)
+(* ForAllInvalidatesUniversal.                                                 *)
 EXTENDS EQLMech2
 CONSTANTS PreferWildcardB3,  \* TRUE: IndexedCache.retrieve before "fix: IndexedCache.retrieve ..." (wildcard branch
                              \* preferred); FALSE: follow every matching branch (the current code)
